@@ -47,9 +47,16 @@ def q_pad(shape, wmax, nmax, fresh):
         seq = rel_sequence(b.msgs)
         if fresh == "abs":
             seq = Sequence(absolute_sequence=seq.abs)
+        elif fresh == "both":
+            seq.get_sequence_duration()      # both views exist before the call
+        elif fresh == "padded_both":
+            seq.pad(b.total + 3)             # already ends in an added rest; both views exist
+            seq.get_sequence_duration()
+            n = n + b.total + 3
+            b.total = b.total + 3
         seq.pad(n)
         er, dr, ea, da = _views(seq)
-        ctx.must("pad_events_rel", events_eq_positionwise(er, exp) if fresh == "rel" else events_eq_multiset_timed(er, exp))
+        ctx.must("pad_events_rel", events_eq_positionwise(er, exp) if fresh != "abs" else events_eq_multiset_timed(er, exp))
         ctx.must("pad_events_abs", events_eq_multiset_timed(ea, exp))
         want = ite(n > b.total, n, b.total)
         ctx.must("pad_duration_rel", eq(dr, want))
@@ -85,20 +92,24 @@ def q_cutoff(shape, wmax, mmax):
                  desc=f"cutoff(m, r<=m) on shape {shape}")
 
 
-def q_scale(shape, wmax, k):
+def q_scale(shape, wmax, k, with_meta=False):
     def fn(ctx):
         b = build_rel(ctx, SHAPES[shape], pitch=(60, 61), chan=(0, 1), wait=(1, wmax))
         _wf(ctx, b)
         exp = [Ev(e.t * k, e.m.copy()) for e in b.all_events]
         seq = rel_sequence(b.msgs)
-        seq.scale(k, quantise_afterwards=False)
+        if with_meta:
+            # a meta sequence only matters for down-scaling; integer up-scaling must not change because one is passed
+            seq.scale(k, meta_sequence=rel_sequence([ts(3, 4), wait(200)]), quantise_afterwards=False)
+        else:
+            seq.scale(k, quantise_afterwards=False)
         er, dr, ea, da = _views(seq)
         ctx.must("scale_events_rel", events_eq_positionwise(er, exp))
         ctx.must("scale_events_abs", events_eq_multiset_timed(ea, exp))
         ctx.must("scale_duration", and_(eq(dr, b.total * k), eq(da, b.total * k)))
         ctx.must("scale_int_ticks", all(is_int(e.t) for e in er + ea))
         return [obs_events(er, dr), obs_events(ea, da)]
-    return Query(f"scale/{shape}/w{wmax}k{k}", fn,
+    return Query(f"scale/{shape}/w{wmax}k{k}{'/meta' if with_meta else ''}", fn,
                  ["scale_events_rel", "scale_events_abs", "scale_duration", "scale_int_ticks"],
                  desc=f"scale({k}, quantise_afterwards=False) on shape {shape}")
 
@@ -158,6 +169,9 @@ def queries(tier, seed):
         for fresh in ("rel", "abs"):
             qs.append(q_pad(s, wmax, nmax, fresh))
             qs.append(q_set_channel(s, wmax, fresh))
+        if s in ("n1t", "n2ov", "n2rep"):
+            qs.append(q_pad(s, wmax, nmax, "both"))
+            qs.append(q_pad(s, wmax, nmax, "padded_both"))
         qs.append(q_cutoff(s, wmax, mmax))
         for k in range(1, 9):
             if tier == "quick" and k not in (1, 2, 3, 8) and s not in ("n2ov",):
@@ -165,4 +179,6 @@ def queries(tier, seed):
             qs.append(q_scale(s, wmax, k))
     for s in (("n1t", "n2ov") if tier == "quick" else ("n1t", "n2ov", "n2rep", "n3")):
         qs.append(q_scale_symbolic(s, 12, 8))
+        qs.append(q_scale(s, wmax, 2, with_meta=True))
+        qs.append(q_scale(s, wmax, 3, with_meta=True))
     return qs
